@@ -83,6 +83,9 @@ def agreeb (env : Env) (senv : SEnv) : Nat → Ty → SType → Bool
       | _ => false)
     | .refT t => agreeRef env senv f t S
     | .prim p => agreePrim p S
+    | .chain e => (match S with
+      | .chainOf s => agreeb env senv f e s
+      | _ => false)
     | .dictE k t => (match S with
       | .hashmapE n sk st => keyWidth k == some n && agreeb env senv f k sk && agreeb env senv f t st
       | _ => false)
